@@ -12,9 +12,6 @@ theorem ConvertAltitudekeyToMinMaxZ_eq (k zk zo E O : Int) :
     Gen.ConvertAltitudekeyToMinMaxZ k zk zo E O = k2z k zk zo E O := by
   unfold Gen.ConvertAltitudekeyToMinMaxZ k2z
   simp only [Id.run, id_pure, CalculateArithmeticShift_eq]
-  by_cases h1 : k > arithShift 1 zk - 1 ∨ k < 0
-  · simp [h1, id_pure]
-  · by_cases h2 : E - zk > 0 <;> by_cases h3 : zo - 25 > 0 <;> simp only [h1, h2, h3, if_true, if_false, id_pure] <;>
-      (split <;> simp_all [id_pure])
+  tie_auto
 
 end SpatialId.Tie
